@@ -104,12 +104,6 @@ impl Cast<f64> for f64 {
     #[verifier::external_body]
     fn cast(self) -> f64 { self }
 }
-impl Cast<Option<f64>> for f64 {
-    open spec fn cast_spec(self) -> Option<f64> { if nan(self) { None } else { Some(self) } }
-    #[verifier::external_body]
-    fn cast(self) -> Option<f64> { if self.is_nan() { None } else { Some(self) } }
-}
-
 // value view used by every statistic spec: None = null, Some(x) = real value
 pub open spec fn val<T: IsNone>(v: T) -> Option<real> {
     match v.opt() { Some(x) => Some(x.rval()), None => None }
